@@ -217,3 +217,92 @@ def _subst_stmt(stmt, env):
                 return ast.copy_location(copy.deepcopy(env[n.id]), n)
             return n
     return S().visit(copy.deepcopy(stmt))
+
+
+def inline_single_exit_helpers(idx, module, func_node, only=None, depth=2):
+    """Statement-level normal form: `T = helper(args)` (or `return helper(args)` / a bare call statement) where the helper is a library function
+    whose only `return` is its last statement is replaced by the helper's body — parameters substituted by the (simple) arguments or bound to fresh
+    temporaries, the helper's locals renamed apart — followed by `T = <returned expression>`.  A loop that was moved into a helper is a loop of the
+    caller again.  `only(callee)` restricts which helpers are opened."""
+    fn = copy.deepcopy(func_node)
+    counter = [0]
+
+    def simple(e):
+        if isinstance(e, ast.Call) and isinstance(e.func, ast.Name) and e.func.id == "len" and len(e.args) == 1 and not e.keywords:
+            return simple(e.args[0])          # len(x) of a simple x: cheap, pure, safe to repeat
+        return isinstance(e, (ast.Name, ast.Constant)) or (isinstance(e, (ast.Attribute, ast.Subscript)) and all(
+            isinstance(x, (ast.Name, ast.Constant, ast.Attribute, ast.Subscript, ast.Tuple, ast.Load, ast.Slice, ast.BinOp, ast.Add, ast.Sub)) for x in ast.walk(e)))
+
+    def open_call(call, mod):
+        callee = idx.resolve_call(mod, call, None)
+        cf = getattr(callee, "node", None)
+        if not isinstance(cf, ast.FunctionDef) or getattr(callee, "cls", None) is not None or (only is not None and not only(callee)):
+            return None
+        body = strip_docstring(cf.body)
+        rets = [n for n in ast.walk(cf) if isinstance(n, ast.Return)]
+        procedure = not rets
+        if not body or (not procedure and (len(rets) != 1 or body[-1] is not rets[0] or rets[0].value is None)):
+            return None
+        if any(isinstance(n, (ast.Yield, ast.YieldFrom, ast.Global, ast.Nonlocal, ast.FunctionDef, ast.Lambda)) for b in body for n in ast.walk(b)):
+            return None
+        env = bind_args(cf, call)
+        if env is None:
+            return None
+        counter[0] += 1
+        tag = "i%d" % counter[0]
+        pre = []
+        # a parameter that is only updated in place (`data += ...`) keeps denoting the caller's object: substituted, not copied to a temporary
+        aug_only = {n.target.id for b in body for n in ast.walk(b) if isinstance(n, ast.AugAssign) and isinstance(n.target, ast.Name)}
+        plain = {t.id for b in body for n in ast.walk(b) if isinstance(n, (ast.Assign, ast.For)) for t in ast.walk(n.targets[0] if isinstance(n, ast.Assign) else n.target)
+                 if isinstance(t, ast.Name) and isinstance(t.ctx, ast.Store)}
+        stored = {n.id for b in body for n in ast.walk(b) if isinstance(n, ast.Name) and isinstance(n.ctx, ast.Store)} - (aug_only - plain)
+        for p_, a_ in list(env.items()):
+            if not simple(a_) or p_ in stored:
+                tmp = "%s__%s" % (p_, tag)
+                pre.append(ast.Assign(targets=[ast.Name(id=tmp, ctx=ast.Store())], value=copy.deepcopy(a_)))
+                env[p_] = ast.Name(id=tmp, ctx=ast.Load())
+                if p_ in stored:
+                    # the helper assigns its parameter: keep a caller-side temporary under the renamed name
+                    pre[-1] = ast.Assign(targets=[ast.Name(id="%s__%s" % (p_, tag), ctx=ast.Store())], value=copy.deepcopy(a_))
+                    env.pop(p_)
+        if procedure:
+            return pre + _rename_locals(body, env, tag), None
+        stmts = _rename_locals(body[:-1] + [ast.Expr(value=rets[0].value)], env, tag)
+        # parameters that are assigned in the helper were removed from env: they are locals now, renamed by _rename_locals to <p>__tag (same name as the temp)
+        return pre + stmts[:-1], stmts[-1].value
+
+    def norm(stmts, mod, d):
+        out = []
+        for st in stmts:
+            call = None
+            if isinstance(st, ast.Assign) and isinstance(st.value, ast.Call):
+                call = st.value
+            elif isinstance(st, ast.Return) and isinstance(st.value, ast.Call):
+                call = st.value
+            elif isinstance(st, ast.Expr) and isinstance(st.value, ast.Call):
+                call = st.value
+            if call is not None and d > 0:
+                r = open_call(call, mod)
+                if r is not None and (r[1] is not None or isinstance(st, ast.Expr)):
+                    pre, val = r
+                    for x in pre:
+                        for y in ast.walk(x):
+                            if hasattr(y, "lineno"):
+                                y.lineno = st.lineno
+                        ast.copy_location(x, st)
+                    out.extend(norm(pre, mod, d - 1))
+                    if val is not None:
+                        new = copy.copy(st)
+                        new.value = val
+                        out.append(new)
+                    continue
+            st = copy.copy(st)
+            for fld in ("body", "orelse", "finalbody"):
+                blk = getattr(st, fld, None)
+                if isinstance(blk, list) and blk and isinstance(blk[0], ast.stmt):
+                    setattr(st, fld, norm(blk, mod, d))
+            out.append(st)
+        return out
+    fn.body = norm(fn.body, module, depth)
+    ast.fix_missing_locations(fn)
+    return fn
